@@ -40,17 +40,30 @@ func (s *Spec) extImport(e ExtPkg) string {
 }
 
 // header builds a file header importing only what body uses.
+// stdImports: standard-library packages that generated harness files may mention.
+var stdImports = [][2]string{{"context.", "context"}, {"fmt.", "fmt"}, {"reflect.", "reflect"}, {"url.", "net/url"}, {"netip.", "net/netip"}, {"big.", "math/big"}, {"time.", "time"}, {"sql.", "database/sql"}}
+
 func (s *Spec) header(pkgName string, body string, inMain bool) string {
+	self := "\x00none"
+	if inMain {
+		self = ""
+	}
+	return s.headerDir(pkgName, body, self)
+}
+
+// headerDir builds the import block of a file of the package in directory
+// selfDir ("" = main package; sibling packages may import the standard
+// library and other sibling packages, never the main package).
+func (s *Spec) headerDir(pkgName string, body string, selfDir string) string {
 	var b strings.Builder
 	fmt.Fprintf(&b, "package %s\n\nimport (\n", pkgName)
-	if strings.Contains(body, "context.") {
-		b.WriteString("\t\"context\"\n")
+	word := func(prefix string) bool {
+		return regexp.MustCompile(`(^|[^A-Za-z0-9_])` + regexp.QuoteMeta(prefix)).MatchString(body)
 	}
-	if strings.Contains(body, "fmt.") {
-		b.WriteString("\t\"fmt\"\n")
-	}
-	if strings.Contains(body, "reflect.") {
-		b.WriteString("\t\"reflect\"\n")
+	for _, si := range stdImports {
+		if word(si[0]) {
+			fmt.Fprintf(&b, "\t%q\n", si[1])
+		}
 	}
 	if strings.Contains(body, "kessoku.") {
 		b.WriteString("\t\"github.com/mazrean/kessoku\"\n")
@@ -58,9 +71,12 @@ func (s *Spec) header(pkgName string, body string, inMain bool) string {
 	if strings.Contains(body, "probe.") {
 		fmt.Fprintf(&b, "\t%q\n", ModulePath+"/probe")
 	}
-	if inMain {
+	if selfDir != "\x00none" {
 		for _, e := range s.ExtPkgs {
-			if regexp.MustCompile(`(^|[^A-Za-z0-9_])` + regexp.QuoteMeta(s.importName(e.Dir)) + `\.`).MatchString(body) {
+			if e.Dir == selfDir {
+				continue
+			}
+			if word(s.importName(e.Dir) + ".") {
 				b.WriteString(s.extImport(e))
 			}
 		}
@@ -94,7 +110,7 @@ func (s *Spec) emitTypes(pkg string) string {
 		// types live where their base lives; main gets forwarding helpers.
 		if tp == pkg {
 			s.emitTypeDecl(&b, t, pkg)
-		} else if pkg == "" {
+		} else if pkg == "" && !s.NoForward {
 			// forwarding helpers to the ext package
 			ex := s.Expr(t.ID, "")
 			q := s.importName(tp)
@@ -113,7 +129,7 @@ func (s *Spec) emitTypes(pkg string) string {
 	if pkg != "" {
 		name = s.extName(pkg)
 	}
-	return s.header(name, body, pkg == "") + body
+	return s.headerDir(name, body, pkg) + body
 }
 
 // typePkg: the package whose identifiers are needed to spell the type.
@@ -335,7 +351,7 @@ func (s *Spec) emitProviders(pkg string) string {
 	if pkg != "" {
 		name = s.extName(pkg)
 	}
-	return s.header(name, body, pkg == "") + body
+	return s.headerDir(name, body, pkg) + body
 }
 
 // ProvExpr renders the kessoku provider expression of p.
